@@ -291,6 +291,19 @@ class WireModel:
                 return sym('V')
             if d == 'cast' and len(e.args) == 2:
                 return self.bytes_expr(e.args[1], store)
+            # b''.join(f(x) for x in xs): any number of f's bytes
+            if isinstance(e.func, ast.Attribute) and e.func.attr == 'join' \
+                    and isinstance(e.func.value, ast.Constant) and \
+                    e.func.value.value == b'' and len(e.args) == 1:
+                a = e.args[0]
+                if isinstance(a, (ast.GeneratorExp, ast.ListComp)):
+                    return star(self.bytes_expr(a.elt, store))
+                if isinstance(a, (ast.List, ast.Tuple)):
+                    return seq(*[self.bytes_expr(x, store) for x in a.elts])
+                if isinstance(a, ast.Name):
+                    v = store.get(a.id)
+                    if isinstance(v, tuple) and v and v[0] == 'list':
+                        return v[1]
         raise Unsupported(f'bytes expression {ast.unparse(e)[:60]}')
 
     def writer_fn(self, name: str) -> tuple:
